@@ -495,3 +495,7 @@ def rules(ctx):
     r_build(ctx)
     r_clear(ctx)
     r_names(ctx)
+    # "overwritten": add/append always write the item (and then the mark) -- a write skipped because "nothing would change"
+    # also skips the mark, and the overwrite is not seen (C05's write-always clause)
+    from props import C05
+    C05.r_write_always(ctx)
